@@ -16,13 +16,19 @@ import itertools
 from . import lib
 from . import lex_common as L
 
-RULE = ("skeletons = alternating texts and tags; texts from {'', ' ', LF, ' LF ', TAB, 'a', 'a LF', ' a'}; tags = block / "
+RULE = ("line breaks in all three forms (CR, CRLF, LF) in texts and raw bodies, judged against spec_trim of the skeleton "
+        "with unified breaks; skeletons = alternating texts and tags; texts from {'', ' ', LF, ' LF ', TAB, 'a', 'a LF', ' a'}; tags = block / "
         "comment (3x3 modifiers), variable (3x2), raw blocks (modifiers on both tags, body from the texts). Exhaustive: all "
         "one-tag skeletons x 4 trim/lstrip settings; two-tag skeletons subsampled (quick) / exhaustive over the first 6 "
         "texts (thorough); random 3-6 tag skeletons; default delimiters plus <% %>/<%= %>/<!-- --> and $-prefixed sets. "
         "distinct = (setting, skeleton); non-trivial = some text contains whitespace next to a tag.")
 
 TEXTS = ["", " ", "\n", " \n ", "\t", "a", "a\n", " a"]
+CR_TEXTS = ["\r", "\r\n", " \r ", "\r  ", "a\r", "\r\r", " \r\n ", "", "a"]
+
+
+def unify_breaks(s):
+    return s.replace("\r\n", "\n").replace("\r", "\n")
 MODS = "nmp"
 
 
@@ -48,6 +54,19 @@ def skel(parts):
     out = []
     for i, p in enumerate(parts):
         out.append("t:" + L.enc_str(p) if i % 2 == 0 else p)
+    return "/".join(out)
+
+
+def norm_skel(k):
+    """the skeleton with the line breaks of its texts / raw bodies unified to LF"""
+    out = []
+    for seg in k.split("/"):
+        f = seg.split(":")
+        if f[0] == "t":
+            f[1] = L.enc_str(unify_breaks(L.dec_str(f[1])))
+        elif f[0] == "r":
+            f[2] = L.enc_str(unify_breaks(L.dec_str(f[2])))
+        out.append(":".join(f))
     return "/".join(out)
 
 
@@ -78,6 +97,20 @@ def run(ctx):
     ctx.proof("C12")
 
     settings = [(t, l) for t in (False, True) for l in (False, True)]
+    # hypothesis probes (skel_wf excludes them): '+' where the syntax has no automatic trimming to disable.
+    # "{% raw +%}" and "{{ x +}}" must be rejected with TemplateSyntaxError (pinned by
+    # tests/test_lexnparse.py::test_raw_no_trim_lstrip), never accepted with some other trimming.
+    for t_, l_ in settings:
+        c = L.Cfg("default", t_, l_)
+        for src in ("a\n {% raw +%}\n b {% endraw %}\nc", "a {{ 'V' +}} b", "{% raw +%}{% endraw +%}"):
+            got = real_render(jinja2, c, src)
+            ctx.case(sample={"probe": src, "result": got[:40]}, key=("probe", c.key(), src))
+            ctx.count("hypothesis_probe")
+            if not got.startswith("ERR "):
+                ctx.reject({"cfg": c.describe(), "skeleton": "probe", "src": src},
+                           "'+' on the right of a raw-begin / variable tag accepted: %r" % got, "C12:probe:%r:%s" % (src, c.key()))
+            else:
+                ctx.validated()
     tags1 = all_tags(TEXTS[:6], raw_full=True)
     tags2 = all_tags(TEXTS[:3], raw_full=False)
     sks = []
@@ -103,12 +136,52 @@ def run(ctx):
     for name, k in sks:
         sts = settings if name == "default" and k.count("/") <= 2 else [ctx.rng.choice(settings), (True, True)]
         for t, l in sts:
-            cases.append((L.Cfg(name, t, l), k))
-    klines = ctx.driver("lex", ["K %s %s" % (c.enc(), k) for c, k in cases])
+            cases.append((L.Cfg(name, t, l), k, k))
+    # line breaks in all three forms: the template is written with CR / CRLF / LF runs, the documented
+    # rules are applied to the skeleton with its line breaks unified (each text normalised on its own:
+    # a CR ending one text and a LF starting the next are separated by a tag and stay two breaks)
+    cr_tags = [g for g in tags1 if g[0] in "bcv"] + [g for g in tags1 if g.startswith("r:") and g.endswith((":e", ":10", ":32.10.32"))]
+    cr_sks = []
+    for a in CR_TEXTS:
+        for g in [g for g in cr_tags if g[0] in "bc"]:
+            for b in CR_TEXTS:
+                cr_sks.append([a, g, b])
+    for _ in range(ctx.size(5000, 50000)):
+        parts = []
+        for i in range(ctx.rng.randint(1, 5)):
+            parts.append("".join(ctx.rng.choice([" ", "\r", "\r\n", "\n", "\t", "a", "b\r", " \r "]) for _ in range(ctx.rng.randint(0, 4))))
+            g = ctx.rng.choice(cr_tags)
+            if g.startswith("r:"):
+                head, body = g.rsplit(":", 1)
+                g = (head, ctx.rng.choice(CR_TEXTS))      # raw body with CR forms
+            parts.append(g)
+        parts.append("".join(ctx.rng.choice([" ", "\r", "\r\n", "\n", "a"]) for _ in range(ctx.rng.randint(0, 3))))
+        cr_sks.append(parts)
+    for parts in cr_sks:
+        raw_parts, norm_parts = [], []
+        for i, p_ in enumerate(parts):
+            if i % 2 == 0:
+                raw_parts.append(p_)
+                norm_parts.append(unify_breaks(p_))
+            elif isinstance(p_, tuple):
+                raw_parts.append(p_[0] + ":" + L.enc_str(p_[1]))
+                norm_parts.append(p_[0] + ":" + L.enc_str(unify_breaks(p_[1])))
+            else:
+                raw_parts.append(p_)
+                norm_parts.append(p_)
+        k_raw, k_norm = skel(raw_parts), skel(norm_parts)
+        sts = settings if len(parts) <= 3 else [ctx.rng.choice(settings), (True, True)]
+        for t, l in sts:
+            cases.append((L.Cfg(ctx.rng.choice(["default", "default", "asp"]) if len(parts) > 3 else "default", t, l), k_raw, k_norm))
+            ctx.count("cr_forms")
+    klines = ctx.driver("lex", ["K %s %s" % (c.enc(), k) for c, k, _ in cases])
+    nlines = ctx.driver("lex", ["K %s %s" % (c.enc(), kn) for c, _, kn in cases])
     srcs = []
-    for (c, k), kl in zip(cases, klines):
-        src, spec_v, spec_0 = (L.dec_str(x) for x in kl.split(" "))
+    for (c, k, kn), kl, nl_ in zip(cases, klines, nlines):
+        src = L.dec_str(kl.split(" ")[0])
+        _, spec_v, spec_0 = (L.dec_str(x) for x in nl_.split(" "))
         srcs.append((src, spec_v, spec_0))
+    cases = [(c, k) for c, k, _ in cases]
     rlines = ctx.driver("lex", ["R %s %s" % (c.enc(), L.enc_str(s[0])) for (c, k), s in zip(cases, srcs)])
     mruns = L.model_runs(ctx, [(c, s[0]) for (c, k), s in zip(cases, srcs)])
     for (c, k), (src, spec_v, spec_0), rl, m in zip(cases, srcs, rlines, mruns):
@@ -137,8 +210,15 @@ def replay(ctx, data):
         print("replay: this file names a broken theorem/correspondence, not an input:", data.get("broken"))
         return run(ctx)
     c = L.Cfg.from_desc(case["cfg"])
-    kl = ctx.driver("lex", ["K %s %s" % (c.enc(), case["skeleton"])])[0]
-    src, spec_v, spec_0 = (L.dec_str(x) for x in kl.split(" "))
+    if case["skeleton"] == "probe":
+        got = real_render(jinja2, c, case["src"])
+        print("probe:", repr(case["src"]), "->", got)
+        if not got.startswith("ERR "):
+            ctx.reject(case, "'+' accepted: %r" % got, data.get("signature"))
+        return
+    src = L.dec_str(ctx.driver("lex", ["K %s %s" % (c.enc(), case["skeleton"])])[0].split(" ")[0])
+    kl = ctx.driver("lex", ["K %s %s" % (c.enc(), norm_skel(case["skeleton"]))])[0]
+    _, spec_v, spec_0 = (L.dec_str(x) for x in kl.split(" "))
     print("skeleton :", case["skeleton"], case["cfg"])
     print("template :", repr(src))
     print("spec_trim:", repr(spec_v))
